@@ -156,8 +156,42 @@ func TestC11(t *testing.T) {
 		}
 		old := runtime.GOMAXPROCS(procs)
 		defer runtime.GOMAXPROCS(old)
-		ms := util.NewMessageStream(conn, copyingParser{})
 		start := make(chan struct{})
+		// in a quarter of the scripts a second stream (own connection, own producer) sends library messages at the
+		// same time: every stream has its own writer goroutine, and what they encode concurrently must not mix
+		var noiseConn *scriptConn
+		var noiseWant [][]byte
+		noiseDone := make(chan struct{})
+		if gen.Pick(rt, "second_stream", 4) == 0 {
+			var nmsgs []util.Message
+			for i, k := 0, rapid.IntRange(5, 60).Draw(rt, "second_stream_msgs"); i < k; i++ {
+				g := gen.New(rt, 300)
+				lm, _ := g.MessageOf([]string{"flow_mod", "group_mod", "packet_out", "set_config"}[gen.Pick(rt, "noise_kind", 4)])
+				setXid(lm, 0x80000000+uint32(i))
+				enc, _ := lm.MarshalBinary()
+				nmsgs, noiseWant = append(nmsgs, lm), append(noiseWant, append([]byte{}, enc...))
+			}
+			noiseConn = newScriptConn(nil, nil)
+			nms := util.NewMessageStream(noiseConn, copyingParser{})
+			go func() {
+				defer close(noiseDone)
+				<-start
+				for _, m := range nmsgs {
+					nms.Outbound <- m
+				}
+			}()
+			defer func() {
+				select {
+				case nms.Shutdown <- true:
+				default:
+				}
+				noiseConn.Close()
+			}()
+			c.Label("second_stream_sending")
+		} else {
+			close(noiseDone)
+		}
+		ms := util.NewMessageStream(conn, copyingParser{})
 		var wg sync.WaitGroup
 		for p := 0; p < np; p++ {
 			wg.Add(1)
@@ -257,6 +291,21 @@ func TestC11(t *testing.T) {
 		if len(frames) != want {
 			c.Report(rt, "C11|lost", fmt.Sprintf("%s: %d of %d messages on the wire within %s (timed out: %v)", desc, len(frames), want, lossWait, timedOut), rep)
 			return
+		}
+		if noiseConn != nil {
+			<-noiseDone
+			nd := time.Now().Add(lossWait)
+			nt := 0
+			for _, w := range noiseWant {
+				nt += len(w)
+			}
+			for noiseConn.WrittenBytes() < nt && time.Now().Before(nd) {
+				time.Sleep(time.Millisecond)
+			}
+			if got := bytes.Join(noiseConn.Writes(), nil); !bytes.Equal(got, bytes.Join(noiseWant, nil)) {
+				c.Report(rt, "C11|second-stream|bytes-differ", fmt.Sprintf("%s: the second stream (one producer, %d library messages) put %d bytes on its wire that are not the concatenation of its messages' encodings (%d bytes)", desc, len(noiseWant), len(got), nt), rep)
+				return
+			}
 		}
 		if np >= 2 && len(sizes) >= 2 {
 			c.NonTrivial(ev.HashStr(desc, fmt.Sprint(len(sizes))))
